@@ -179,21 +179,36 @@ theorem C12_mono_partial (P : Prims) (L : PrimLaws P) (E : Env) (u : Unresolved)
 
 /-! ## (3) no_explicit_cast: a value converts only within its primitive group -/
 
-/-- **C12_group_conv** (partial in `complex-from-str-under-nec`): what a converter accepts under
-no_explicit_cast lies in the target's primitive group (`GroupOK`: the six groups, `Decimal` also from the
-string group, the date/time types also from strings and numbers, abstract collection classes pass their
-instances through).  Enum targets: `C12_group_enum`. -/
+/-- close a goal `GroupLaw cv v r ∨ (deviation cv v).isSome` for a concrete converter and value constructor -/
+local macro "grp" : tactic =>
+  `(tactic| simp [GroupLaw, inGroup, targetGroup, valueInGroup, docException, deviation, isDateLike, isZeroOneValue])
+
+/-- **C12_group_conv**: what a converter (other than `to_enum`: `C12_group_enum`) accepts under no_explicit_cast
+either obeys the property's table (`GroupLaw`: passed through unchanged / in the target's primitive group /
+documented exception) or is one of the five listed deviations of the code (`deviation`, findings.d). -/
 theorem C12_group_conv (P : Prims) (L : PrimLaws P) (E : Env) (d : Bool) (t : Target) (v : V) (cv : Conv) (r : V)
-    (hk : KnownDefect.complexFromStr cv v = false)
-    (hj : KnownDefect.jsonControlChar P E v = false)
-    (h : runConv P E ⟨true, d⟩ t v cv = .ok r) : GroupOK cv v = true := by
+    (hcv : cv ≠ .enum)
+    (h : runConv P E ⟨true, d⟩ t v cv = .ok r) : GroupLaw cv v r ∨ (deviation cv v).isSome = true := by
+  have num_case : ∀ cv', (cv' = .int ∨ cv' = .float ∨ cv' = .decimal ∨ cv' = .complex) → isNumber v = true →
+      GroupLaw cv' v r ∨ (deviation cv' v).isSome = true := by
+    intro cv' hc hn
+    rcases isNumber_cases v hn with ⟨b, rfl⟩ | hg
+    · rcases hc with rfl | rfl | rfl | rfl <;> grp
+    · rcases hc with rfl | rfl | rfl | rfl <;> simp [GroupLaw, inGroup, targetGroup, hg]
+  have ts_case : ∀ cv', (cv' = .date ∨ cv' = .datetime ∨ cv' = .timedelta) → isNumber v = true →
+      GroupLaw cv' v r ∨ (deviation cv' v).isSome = true := by
+    intro cv' hc hn
+    rcases isNumber_cases v hn with ⟨b, rfl⟩ | hg
+    · rcases hc with rfl | rfl | rfl <;> grp
+    · rcases hc with rfl | rfl | rfl <;> simp [GroupLaw, docException, hg]
   cases cv
+  case enum => exact absurd rfl hcv
   case null =>
     have h' := nec_reduce (X := fun f => toNull f v) (by rw [toNull_ndl]; exact Sub.refl _) d r h
-    cases v <;> simp [toNull] at h' <;> rfl
+    cases v <;> simp [toNull] at h' <;> grp
   case str =>
     have h' := nec_reduce (X := fun f => toStr P E f (subOf t) v) (toStr_ndl P L E true _ v) d r h
-    cases v <;> simp [toStr, attemptFrom, fromByteLike, isInst, V.cls?, Base.sub] at h' <;> try rfl
+    cases v <;> simp [toStr, attemptFrom, fromByteLike, isInst, V.cls?, Base.sub] at h' <;> try grp
     case seq k c' xs => cases k <;> simp [SeqK.base] at h'
   case bytes =>
     cases t with
@@ -204,7 +219,7 @@ theorem C12_group_conv (P : Prims) (L : PrimLaws P) (E : Env) (d : Bool) (t : Ta
       | some k =>
         simp only [hk'] at h
         have h' := nec_reduce (X := fun f => toBytes P E f k c v) (toBytes_ndl P E true k c v) d r h
-        cases v <;> simp [toBytes, attemptFrom] at h' <;> rfl
+        cases v <;> simp [toBytes, attemptFrom] at h' <;> grp
     | _ => simp [runConv] at h
   case array =>
     cases t with
@@ -217,113 +232,156 @@ theorem C12_group_conv (P : Prims) (L : PrimLaws P) (E : Env) (d : Bool) (t : Ta
         have h' := nec_reduce (X := fun f => toArray P f k c v) (toArray_ndl P L true k c v) d r h
         unfold toArray at h'
         split at h'
-        · rename_i hi; exact isInst_seq v k (isInstT_isInst v _ c hi)
+        · left; left; simpa using h'.symm
         · split at h'
-          · rename_i hm; cases v <;> simp [multi] at hm; rfl
+          · rename_i hm; cases v <;> simp [multi] at hm; grp
           · simp at h'
     | _ => simp [runConv] at h
   case dict =>
-    have h' := nec_reduce (X := fun f => toDict P E f (subOf t) v) (toDict_ndl P L E true _ v hj) d r h
+    have h' : toDict P E ⟨true, false⟩ (subOf t) v = .ok r := by
+      cases d
+      · exact h
+      · simp only [runConv] at h
+        unfold toDict at h ⊢
+        split at h
+        · rename_i h1; simp only [h1, if_true]; exact h
+        · rename_i h1; simp only [h1]
+          split at h
+          · exact h
+          · simp at h
     unfold toDict at h'
     split at h'
-    · rename_i hi; exact isInst_dict v (isInstT_isInst v _ _ hi)
+    · left; left; simpa using h'.symm
     · split at h'
-      · rfl
+      · grp
       · simp at h'
   case mapping =>
-    have h' := nec_reduce (X := fun f => toMapping P E f v) (toMapping_ndl P L E true v hj) d r h
+    have h' : toMapping P E ⟨true, false⟩ v = .ok r := by
+      cases d
+      · exact h
+      · simp only [runConv] at h
+        unfold toMapping toDict at h ⊢
+        split at h
+        · rename_i h1; simp only [h1, if_true]; exact h
+        · rename_i h1; simp only [h1]
+          split at h
+          · rename_i h2; simp only [h2, if_true]; exact h
+          · rename_i h2; simp only [h2]
+            split at h
+            · exact h
+            · simp at h
     unfold toMapping at h'
     split at h'
-    · rename_i hi; exact isInst_dict v hi
+    · left; left; simpa using h'.symm
     · unfold toDict at h'
       split at h'
-      · rename_i hi; exact isInst_dict v (isInstT_isInst v _ _ hi)
+      · left; left; simpa using h'.symm
       · split at h'
-        · rfl
+        · grp
         · simp at h'
   case float =>
     have h' := nec_reduce (X := fun f => toFloat P E f (subOf t) v) (toFloat_ndl P L E true _ v) d r h
+    refine num_case .float (by simp) ?_
     unfold toFloat at h'
     split at h'
-    · simp [GroupOK, isNumber, isInst, V.cls?, Base.sub]
+    · simp [isNumber, isInst, V.cls?, Base.sub]
     · simp only [if_true] at h'
       split at h'
       · rename_i hi
         simp at hi
-        rcases hi with hi | hi <;> simp [GroupOK, isNumber, hi]
+        rcases hi with hi | hi <;> simp [isNumber, hi]
       · simp at h'
   case int =>
     have h' := nec_reduce (X := fun f => toInteger P E f (subOf t) v) (toInteger_ndl P L E true _ v) d r h
+    refine num_case .int (by simp) ?_
     unfold toInteger at h'
     split at h'
-    · simp [GroupOK, isNumber, isInst, V.cls?, Base.sub]
-    · simp [GroupOK, isNumber, isInst, V.cls?, Base.sub]
+    · simp [isNumber, isInst, V.cls?, Base.sub]
+    · simp [isNumber, isInst, V.cls?, Base.sub]
     · simp only [if_true] at h'
       split at h'
       · rename_i hi
         simp at hi
-        rcases hi with hi | hi <;> simp [GroupOK, isNumber, hi]
+        rcases hi with hi | hi <;> simp [isNumber, hi]
       · simp at h'
   case decimal =>
     have h' := nec_reduce (X := fun f => toDecimal P E f (subOf t) v) (toDecimal_ndl_nec P L E _ v) d r h
     unfold toDecimal at h'
     split at h'
-    · simp [GroupOK, isNumber, isInst, V.cls?, Base.sub]
+    · grp
     · simp only [if_true] at h'
       obtain ⟨d1, hd1, _⟩ := Outcome.bind_eq_ok.mp h'
       obtain ⟨d2, hd2, hd3⟩ := Outcome.bind_eq_ok.mp hd1
       split at hd3
       · rename_i hi
-        exact fromByteLike_group P _ v d2 hd2 (scalar_group d2 hi)
+        have hg := fromByteLike_group P _ v d2 hd2 (scalar_group d2 hi)
+        simp at hg
+        rcases hg with hg | hg
+        · exact num_case .decimal (by simp) hg
+        · left; right; right; simp [docException, isString_group v hg]
       · simp at hd3
   case complex =>
     have h' := nec_reduce (X := fun f => toComplex P E f (subOf t) v) (toComplex_ndl P L E true _ v) d r h
     unfold toComplex at h'
     split at h'
-    · rename_i hi; exact isInst_complex v (isInstT_isInst v _ _ hi)
+    · left; left; simpa using h'.symm
     · simp only [if_true] at h'
       obtain ⟨d2, hd2, hd3⟩ := Outcome.bind_eq_ok.mp h'
       split at hd3
       · rename_i hi
         have hg := fromByteLike_group P _ v d2 hd2 (scalar_group d2 (by
           simp at hi ⊢; rcases hi with ((hi | hi) | hi) | hi <;> simp [hi]))
-        simp [KnownDefect.complexFromStr] at hk
-        simp [GroupOK]
         simp at hg
         rcases hg with hg | hg
-        · exact hg
-        · simp [hk] at hg
+        · exact num_case .complex (by simp) hg
+        · right
+          have := isString_group v hg
+          cases v <;> simp [valueInGroup] at this <;> grp
       · simp at hd3
   case bool =>
     have h' := nec_reduce (X := fun f => Conv.toBool P f v) (toBool_ndl P true v) d r h
     unfold Conv.toBool at h'
+    have fin : ∀ n : Int, (n = 0 ∨ n = 1) → eqSmall v n = .ok true →
+        GroupLaw .bool v r ∨ (deviation .bool v).isSome = true := by
+      intro n hn he
+      rcases eqSmall_spec v n hn he with ⟨b, rfl⟩ | ⟨c, rfl⟩ | hz
+      · grp
+      · rcases hn with rfl | rfl <;> grp
+      · right
+        cases v <;> simp [isZeroOneValue] at hz <;> simp [deviation, isZeroOneValue, hz]
     split at h'
-    · simp [GroupOK, isBoolLike]
+    · grp
     · obtain ⟨b1, hb1, h2⟩ := Outcome.bind_eq_ok.mp h'
       split at h2
-      · rename_i hb; subst hb; simp [GroupOK, isBoolLike, hb1, okTrue]
+      · rename_i hb; subst hb; exact fin 1 (Or.inr rfl) hb1
       · obtain ⟨b0, hb0, h3⟩ := Outcome.bind_eq_ok.mp h2
         split at h3
-        · rename_i hb; subst hb; simp [GroupOK, isBoolLike, hb0, okTrue]
+        · rename_i hb; subst hb; exact fin 0 (Or.inl rfl) hb0
         · simp at h3
-  case enum => rfl
   case datetime =>
     have h' := nec_reduce (X := fun f => toDatetime P E f (subOf t) false v) (toDatetime_ndl P L E true _ false v) d r h
-    exact toDatetime_nec_group P E _ false v r h'
+    rcases toDatetime_nec_group P E _ false v r h' with h1 | h1 | h1 | h1
+    · left; left; exact h1
+    · right; cases v <;> simp [isDateLike] at h1 <;> grp
+    · exact ts_case .datetime (by simp) h1
+    · left; right; right; simp [docException, isString_group v h1]
   case date =>
     have h' := nec_reduce (X := fun f => toDate P E f v) (toDate_ndl P L E true v) d r h
-    unfold toDate at h'
-    split at h'
-    · simp [GroupOK, isTemporal]
-    · simp [GroupOK, isTemporal]
-    · obtain ⟨dt, hdt, _⟩ := Outcome.bind_eq_ok.mp h'
-      exact toDatetime_nec_group P E _ true v dt hdt
+    cases v with
+    | datetime c' dd tt => grp
+    | date c' dd => left; left; simpa [toDate] using h'.symm
+    | _ =>
+      simp only [toDate] at h'
+      obtain ⟨dt, hdt, _⟩ := Outcome.bind_eq_ok.mp h'
+      rcases toDatetime_nec_kind P E _ true _ dt hdt with h1 | h1 | h1
+      · simp [isDateLike] at h1
+      · exact ts_case .date (by simp) h1
+      · left; right; right; simp [docException, isString_group _ h1]
   case timedelta =>
     have h' := nec_reduce (X := fun f => toTimedelta P E f (subOf t) v) (toTimedelta_ndl P L E true _ v) d r h
     unfold toTimedelta at h'
     split at h'
-    · rename_i hi
-      simp [GroupOK, isInst_temporal v _ (Or.inr (Or.inl rfl)) (isInstT_isInst v _ _ hi)]
+    · left; left; simpa using h'.symm
     · simp only [attemptFrom, if_true, Outcome.ok_bind] at h'
       obtain ⟨d2, hd2, h3⟩ := Outcome.bind_eq_ok.mp h'
       cases hf : toFloat P E ⟨true, false⟩ 0 d2 with
@@ -338,11 +396,15 @@ theorem C12_group_conv (P : Prims) (L : PrimLaws P) (E : Env) (d : Bool) (t : Ta
             · simp at hf
         have := fromByteLike_group P _ v d2 hd2 (by simp [hn])
         simp at this
-        rcases this with h1 | h1 <;> simp [GroupOK, h1]
+        rcases this with h1 | h1
+        · exact ts_case .timedelta (by simp) h1
+        · left; right; right; simp [docException, isString_group v h1]
       | perr e =>
         simp only [hf] at h3
         split at h3
-        · rename_i c' s; simp [GroupOK, fromByteLike_str_string P _ v c' s hd2]
+        · rename_i c' s
+          left; right; right
+          simp [docException, isString_group v (fromByteLike_str_string P _ v c' s hd2)]
         · simp at h3
       | escape e => simp [hf] at h3
       | diverge => simp [hf] at h3
@@ -351,18 +413,17 @@ theorem C12_group_conv (P : Prims) (L : PrimLaws P) (E : Env) (d : Bool) (t : Ta
     have h' := nec_reduce (X := fun f => toTime P E f (subOf t) v) (toTime_ndl P L E true _ v) d r h
     unfold toTime at h'
     split at h'
-    · rename_i hi
-      simp [GroupOK, isInst_temporal v _ (Or.inr (Or.inr (Or.inl rfl))) (isInstT_isInst v _ _ hi)]
+    · left; left; simpa using h'.symm
     · simp only [attemptFrom, if_true, Outcome.ok_bind, Bool.false_eq_true, if_false] at h'
-      cases v <;> simp [fromByteLike] at h' <;> simp [GroupOK, isTemporal, isString]
+      cases v <;> simp [fromByteLike] at h' <;> grp
   case uuid =>
     have h' := nec_reduce (X := fun f => toUuid P f (subOf t) v) (toUuid_ndl P true _ v) d r h
     unfold toUuid at h'
     split at h'
-    · rename_i hi; simp [GroupOK, isInst_uuid v (isInstT_isInst v _ _ hi)]
+    · left; left; simpa using h'.symm
     · split at h'
-      · simp [GroupOK, isString]
-      · simp [GroupOK, isString]
+      · grp
+      · grp
       · simp at h'
   case iter =>
     cases t with
@@ -371,15 +432,51 @@ theorem C12_group_conv (P : Prims) (L : PrimLaws P) (E : Env) (d : Bool) (t : Ta
       have h' := nec_reduce (X := fun f => toIter P f a v) (toIter_ndl P L true a v) d r h
       unfold toIter at h'
       split at h'
-      · rename_i hi
-        exact isInstAbc_group v a hi
+      · left; left; simpa using h'.symm
       · unfold toArray at h'
         split at h'
-        · rename_i hi; simp [GroupOK, isInst_seq v .list (isInstT_isInst v _ _ hi)]
+        · left; left; simpa using h'.symm
         · split at h'
-          · rename_i hm; cases v <;> simp [multi] at hm; simp [GroupOK, isArray]
+          · rename_i hm; cases v <;> simp [multi] at hm; grp
           · simp at h'
     | _ => simp [runConv] at h
+
+/-- **C12_group_partial**: the property's clause itself, partial in the listed deviations: under no_explicit_cast a
+value that converts was passed through unchanged, lies in the target's primitive group, or is a documented
+exception (Decimal from the string group; date/time types from their string and timestamp forms). -/
+theorem C12_group_partial (P : Prims) (L : PrimLaws P) (E : Env) (d : Bool) (t : Target) (v : V) (cv : Conv) (r : V)
+    (hcv : cv ≠ .enum) (hd : deviation cv v = none)
+    (h : runConv P E ⟨true, d⟩ t v cv = .ok r) : GroupLaw cv v r := by
+  rcases C12_group_conv P L E d t v cv r hcv h with h1 | h1
+  · exact h1
+  · simp [hd] at h1
+
+/-- **C12_group_transformU**: the same at `TypeTransformer.__call__`: the exact-type shortcut and
+`handle_unresolved` pass the value through (or raise), except `unresolved_types='init'`, which calls the class. -/
+theorem C12_group_transformU (P : Prims) (L : PrimLaws P) (E : Env) (u : Unresolved) (d : Bool) (t : Target) (v r : V)
+    (h : transformU P E ⟨true, d⟩ u t v = .ok r) :
+    r = v ∨ (resolve t = none ∧ u = .init) ∨
+    ∃ cv, resolve t = some cv ∧ (cv = .enum ∨ GroupLaw cv v r ∨ (deviation cv v).isSome = true) := by
+  unfold transformU at h
+  split at h
+  · left; simpa using h.symm
+  · split at h
+    · simp at h
+    · split at h
+      · rename_i hr
+        unfold handleUnresolved at h
+        split at h
+        · left; simpa using h.symm
+        · cases u
+          · simp at h
+          · right; left; exact ⟨hr, rfl⟩
+          · left; simpa using h.symm
+      · rename_i cv hcv
+        right; right
+        refine ⟨cv, hcv, ?_⟩
+        by_cases he : cv = .enum
+        · left; exact he
+        · right; exact C12_group_conv P L E d t v cv r he h
 
 /-- **C12_group_enum**: under no_explicit_cast an Enum target is reached by value only: the result is the
 input itself (already a member) or the first member whose value `==` the input. -/
@@ -412,21 +509,6 @@ theorem C12_group_enum (P : Prims) (E : Env) (d : Bool) (k : Nat) (v r : V)
 
 /-! ## (2) the promises of no_data_loss -/
 
-/-- the integer a number equals, if it has no fractional part (spec vocabulary, independent of the code:
-floats are `m·2^e`, Decimals `±c·10^e`) -/
-def exactInt? : V → Option Int
-  | .bool b => some (if b then 1 else 0)
-  | .int _ i => some i
-  | .float _ (.fin m e) =>
-    if e ≥ 0 then some (m * 2 ^ e.toNat)
-    else if m % (2 ^ (-e).toNat) = 0 then some (m / 2 ^ (-e).toNat) else none
-  | .dec _ (.fin s c e) =>
-    let n : Option Int :=
-      if e ≥ 0 then some ((c : Int) * 10 ^ e.toNat)
-      else if (c : Int) % (10 ^ (-e).toNat) = 0 then some ((c : Int) / 10 ^ (-e).toNat) else none
-    n.map fun x => if s then -x else x
-  | _ => none
-
 theorem signed_natAbs (m : Int) (k : Nat) :
     (if decide (m < 0) = true then -(((m.natAbs * k : Nat) : Int)) else ((m.natAbs * k : Nat) : Int)) = m * k := by
   by_cases h : m < 0
@@ -447,7 +529,7 @@ theorem intFinish_exact (P : Prims) (n : Bool) (c : Nat) (v r : V)
       by_cases he : e ≥ 0
       · simp [intFinish, decimalOf, decOfFloatExact, he, decFinExp0, intOfDec] at h
         refine ⟨_, h.symm, ?_⟩
-        simp only [exactInt?, he, if_true]
+        simp only [exactInt?, exactIntF, he, if_true]
         have := signed_natAbs m (2 ^ e.toNat)
         simp only [Int.natCast_pow, Int.natCast_mul] at this ⊢
         simpa using this.symm
@@ -462,7 +544,7 @@ theorem intFinish_exact (P : Prims) (n : Bool) (c : Nat) (v r : V)
       · subst he
         simp [intFinish, decimalOf, decFinExp0, intOfDec] at h
         refine ⟨_, h.symm, ?_⟩
-        simp [exactInt?]
+        simp [exactInt?, exactIntD]
       · simp [intFinish, decimalOf, decFinExp0, he] at h
     | inf s => simp [intFinish, decimalOf, decFinExp0] at h
     | nan s => simp [intFinish, decimalOf, decFinExp0] at h
@@ -495,12 +577,12 @@ theorem C12_ndl_int (P : Prims) (E : Env) (n : Bool) (c : Nat) (v r : V)
       case float c' f =>
         cases f <;> simp [truthy, fZero] at ht
         subst ht
-        simp only [exactInt?]
+        simp only [exactInt?, exactIntF]
         split <;> simp
       case dec c' d =>
         cases d <;> simp [truthy] at ht
         subst ht
-        simp only [exactInt?]
+        simp only [exactInt?, exactIntD]
         split <;> simp
   · have : intFinish P ⟨true, true⟩ c v = .ok r := by
       cases v <;> simp at hv <;> simpa [toInteger, isInst, V.cls?, Base.sub] using h
@@ -778,8 +860,33 @@ def Pcx : Prims := { P0 with complexOf := fun _ => .ok (.complex (.fin 1 0) (.fi
 /-- under no_explicit_cast a str converts to complex although it is not in the number group -/
 theorem C12_complex_from_str_witness :
     ∃ (P : Prims) (E : Env) (v r : V), transformU P E ⟨true, false⟩ .throw (.cls .complex 0) v = .ok r ∧
-      GroupOK .complex v = false ∧ KnownDefect.complexFromStr .complex v = true :=
-  ⟨Pcx, E0, .str 0 "1+3j", .complex (.fin 1 0) (.fin 3 0), by rfl, by rfl, by rfl⟩
+      inGroup .complex v = false ∧ docException .complex v = false ∧ r ≠ v ∧
+      deviation .complex v = some .complexFromStr ∧ KnownDefect.complexFromStr .complex v = true :=
+  ⟨Pcx, E0, .str 0 "1+3j", .complex (.fin 1 0) (.fin 3 0), by rfl, by rfl, by rfl, by simp, by rfl, by rfl⟩
+
+/-- builtins for the deviation witnesses: `float(1) = 1.0`, `UUID(text)`, `utcfromtimestamp` -/
+def Pdev : Prims :=
+  { P0 with floatOfInt := fun _ => .ok (.fin 1 0), uuidOfStr := fun _ => .ok 5 }
+
+/-- **C12_group_deviation_witnesses**: each deviation of the code from the property's table happens (none of the
+results is the input, none of the inputs is in the target's group or a documented exception):
+True → 1.0, 1.0 → True, datetime → date, text → UUID under no_explicit_cast. -/
+theorem C12_group_deviation_witnesses :
+    (runConv Pdev E0 ⟨true, false⟩ (.cls .float 0) (.bool true) .float = .ok (.float 0 (.fin 1 0)) ∧
+      inGroup .float (.bool true) = false ∧ docException .float (.bool true) = false ∧
+      deviation .float (.bool true) = some .boolAsNumber) ∧
+    (runConv Pdev E0 ⟨true, false⟩ (.cls .bool 0) (.float 0 (.fin 1 0)) .bool = .ok (.bool true) ∧
+      inGroup .bool (.float 0 (.fin 1 0)) = false ∧ docException .bool (.float 0 (.fin 1 0)) = false ∧
+      deviation .bool (.float 0 (.fin 1 0)) = some .zeroOneLike) ∧
+    (runConv Pdev E0 ⟨true, false⟩ (.cls .date 0) (.datetime 0 ⟨2020, 1, 2⟩ ⟨3, 4, 5, 0, none⟩) .date = .ok (.date 0 ⟨2020, 1, 2⟩) ∧
+      inGroup .date (.datetime 0 ⟨2020, 1, 2⟩ ⟨3, 4, 5, 0, none⟩) = false ∧
+      docException .date (.datetime 0 ⟨2020, 1, 2⟩ ⟨3, 4, 5, 0, none⟩) = false ∧
+      deviation .date (.datetime 0 ⟨2020, 1, 2⟩ ⟨3, 4, 5, 0, none⟩) = some .temporalCross) ∧
+    (runConv Pdev E0 ⟨true, false⟩ (.cls .uuid 0) (.str 0 "x") .uuid = .ok (.uuid 0 5) ∧
+      inGroup .uuid (.str 0 "x") = false ∧ docException .uuid (.str 0 "x") = false ∧
+      deviation .uuid (.str 0 "x") = some .uuidFromString) :=
+  ⟨⟨by rfl, by rfl, by rfl, by rfl⟩, ⟨by rfl, by rfl, by rfl, by rfl⟩, ⟨by rfl, by rfl, by rfl, by rfl⟩,
+    ⟨by rfl, by rfl, by rfl, by rfl⟩⟩
 
 /-! non-vacuity: the hypotheses of the partial theorems are satisfiable together with a successful conversion -/
 
@@ -794,8 +901,18 @@ example : ∃ (P : Prims) (E : Env) (v r : V), KnownDefect.timedeltaNumericStrin
     toTimedelta P E ⟨true, false⟩ 0 v = .ok r :=
   ⟨{ Ptd with floatOfStr := fun _ => .perr .valueError, durationMatch := fun _ _ => .ok (some []) }, E0, .str 0 "P1D", .delta 0 5123456, by rfl, by rfl⟩
 
-example : ∃ (cv : Conv) (v : V), KnownDefect.complexFromStr cv v = false ∧ GroupOK cv v = true :=
-  ⟨.complex, .int 0 1, by rfl, by rfl⟩
+/-- all hypotheses of `C12_group_partial` together with a successful conversion (1.0 → complex, in the number group) -/
+example : ∃ (P : Prims) (_ : PrimLaws P) (E : Env) (d : Bool) (t : Target) (v : V) (cv : Conv) (r : V),
+    cv ≠ .enum ∧ deviation cv v = none ∧ runConv P E ⟨true, d⟩ t v cv = .ok r ∧ GroupLaw cv v r :=
+  ⟨P0, P0_laws, E0, true, .cls .complex 0, .float 0 (.fin 1 0), .complex, .complex (.fin 1 0) (.fin 0 0),
+    by decide, by rfl, by rfl, Or.inr (Or.inl (by rfl))⟩
+
+/-- … and with a documented exception (text → Decimal) -/
+example : ∃ (P : Prims) (E : Env) (v r : V),
+    deviation .decimal v = none ∧ runConv P E ⟨true, true⟩ (.cls .decimal 0) v .decimal = .ok r ∧
+    inGroup .decimal v = false ∧ docException .decimal v = true :=
+  ⟨{ P0 with decOfStr := fun _ => .ok (.fin false 15 (-1)) }, E0, .str 0 "1.5", .dec 0 (.fin false 15 (-1)),
+    by rfl, by rfl, by rfl, by rfl⟩
 
 /-- the enum of the fixed finding `enum-name-shadows-value`: `class E(Enum): A = 'B'; B = 'C'` -/
 def Eab : Env := ⟨[{ memberType := none, members := [("A", .str 0 "B"), ("B", .str 0 "C")] }]⟩
